@@ -4,7 +4,7 @@ does it still apply and build, and does the property's check (static, on the pat
 usage: reseed.py [id-prefix] [--update]   (--update rewrites detected_by_check/reported in meta.json, keeping the first verdict as detected_initially)"""
 import json, os, subprocess, sys, glob
 env = dict(os.environ, GOFLAGS='-mod=mod', GOPROXY='off', GOSUMDB='off', GOTOOLCHAIN='local')
-WT = os.environ.get("RESEED_WT", "/tmp/wt-reseed")
+WT = os.environ.get("RESEED_WT", "/tmp/wt-reseed-%d" % os.getpid())
 def sh(cmd, cwd=None):
     p = subprocess.run(cmd, shell=True, cwd=cwd, env=env, capture_output=True, text=True)
     return p.returncode, p.stdout + p.stderr
